@@ -344,7 +344,131 @@ func BVBin(op string, a, b Term) Term {
 			return b
 		}
 	}
+	if (op == "bvurem" || op == "bvudiv" || op == "bvsrem" || op == "bvsdiv") && !b.IsC {
+		// Division and remainder by a symbolic divisor go through a named function (defined
+		// as the SMT-LIB operator in the exact query): the "abstract arithmetic" variant of a
+		// query replaces the definition by an uninterpreted function plus bound facts, which
+		// is a sound weakening that spares the solvers the bit-blasted divider.
+		return app(a.Sort, fmt.Sprintf("pvc_%s_%d", op[2:], w), a, b)
+	}
 	return app(a.Sort, op, a, b)
+}
+
+var arithFnRe = regexp.MustCompile(`pvc_(urem|udiv|srem|sdiv)_(\d+)`)
+
+// arithDefs returns the define-fun lines for the pvc_urem_W / pvc_udiv_W functions a query uses.
+func arithDefs(q string) string {
+	seen := map[string]bool{}
+	var b strings.Builder
+	for _, m := range arithFnRe.FindAllStringSubmatch(q, -1) {
+		if seen[m[0]] {
+			continue
+		}
+		seen[m[0]] = true
+		fmt.Fprintf(&b, "(define-fun %s ((a (_ BitVec %s)) (b (_ BitVec %s))) (_ BitVec %s) (bv%s a b))\n", m[0], m[2], m[2], m[2], m[1])
+	}
+	return b.String()
+}
+
+// abstractArith turns the exact query into its abstract-arithmetic variant: the
+// division/remainder functions become uninterpreted and every ground application gets
+// the facts  b != 0 ==> a%b < b,  a%b <= a,  b != 0 ==> a/b <= a.  Every model of the
+// exact query is a model of the variant, so "unsat" of the variant is a proof.
+func abstractArith(q string) (string, bool) {
+	if !arithFnRe.MatchString(q) {
+		return "", false
+	}
+	lines := strings.Split(q, "\n")
+	var out []string
+	apps := map[string][3]string{}
+	var order []string
+	var walk func(n *sx)
+	walk = func(n *sx) {
+		if n.list == nil {
+			return
+		}
+		if h := n.head(); len(n.list) == 3 && arithFnRe.MatchString(h) && strings.HasPrefix(h, "pvc_") && !hasBound(n) {
+			k := n.String()
+			if _, ok := apps[k]; !ok {
+				apps[k] = [3]string{h, n.list[1].String(), n.list[2].String()}
+				order = append(order, k)
+			}
+		}
+		for _, c := range n.list {
+			walk(c)
+		}
+	}
+	insertAt := -1
+	for _, l := range lines {
+		if strings.HasPrefix(l, "(define-fun pvc_urem_") || strings.HasPrefix(l, "(define-fun pvc_udiv_") ||
+			strings.HasPrefix(l, "(define-fun pvc_srem_") || strings.HasPrefix(l, "(define-fun pvc_sdiv_") {
+			m := arithFnRe.FindStringSubmatch(l)
+			out = append(out, fmt.Sprintf("(declare-fun %s ((_ BitVec %s) (_ BitVec %s)) (_ BitVec %s))", m[0], m[2], m[2], m[2]))
+			continue
+		}
+		if strings.HasPrefix(l, "(assert ") || strings.HasPrefix(l, "(define-fun ") {
+			if arithFnRe.MatchString(l) {
+				walk(parseSx(l))
+			}
+			if insertAt < 0 && strings.HasPrefix(l, "(assert ") {
+				insertAt = len(out)
+			}
+		}
+		out = append(out, l)
+	}
+	if insertAt < 0 {
+		return "", false
+	}
+	var ax []string
+	if len(order) > 40 {
+		order = order[:40]
+	}
+	for i, k := range order {
+		a := apps[k]
+		mm := arithFnRe.FindStringSubmatch(a[0])
+		kind, w := mm[1], mm[2]
+		zero := "(_ bv0 " + w + ")"
+		switch kind {
+		case "urem":
+			ax = append(ax, fmt.Sprintf("(assert (=> (not (= %s %s)) (bvult %s %s)))", a[2], zero, k, a[2]))
+			ax = append(ax, fmt.Sprintf("(assert (bvule %s %s))", k, a[1]))
+		case "udiv":
+			ax = append(ax, fmt.Sprintf("(assert (=> (not (= %s %s)) (bvule %s %s)))", a[2], zero, k, a[1]))
+		case "srem":
+			// for a non-negative dividend and a positive divisor: 0 <= a%b < b and a%b <= a
+			ax = append(ax, fmt.Sprintf("(assert (=> (and (bvsle %s %s) (bvslt %s %s)) (and (bvsle %s %s) (bvslt %s %s) (bvsle %s %s))))",
+				zero, a[1], zero, a[2], zero, k, k, a[2], k, a[1]))
+		case "sdiv":
+			ax = append(ax, fmt.Sprintf("(assert (=> (and (bvsle %s %s) (bvslt %s %s)) (and (bvsle %s %s) (bvsle %s %s))))",
+				zero, a[1], zero, a[2], zero, k, k, a[1]))
+		}
+		if kind != "urem" && kind != "srem" {
+			continue
+		}
+		// two dividends less than the divisor apart have different remainders:
+		// a < b and b - a < m  ==>  a%m != b%m   (same sign convention as above for srem)
+		for _, k2 := range order[i+1:] {
+			c := apps[k2]
+			if c[0] != a[0] || c[2] != a[2] || c[1] == a[1] {
+				continue
+			}
+			lt, le := "bvult", "bvule"
+			if kind == "srem" {
+				lt, le = "bvslt", "bvsle"
+			}
+			for _, pr := range [][2]string{{a[1], c[1]}, {c[1], a[1]}} {
+				lo, hi := pr[0], pr[1]
+				nonneg := "true"
+				if kind == "srem" {
+					nonneg = fmt.Sprintf("(and (%s %s %s) (bvslt %s %s))", le, zero, lo, zero, a[2])
+				}
+				ax = append(ax, fmt.Sprintf("(assert (=> (and %s (%s %s %s) (%s (bvsub %s %s) %s)) (not (= %s %s))))",
+					nonneg, lt, lo, hi, lt, hi, lo, a[2], k, k2))
+			}
+		}
+	}
+	res := append(append(append([]string{}, out[:insertAt]...), ax...), out[insertAt:]...)
+	return strings.Join(res, "\n"), true
 }
 
 // BVCmp applies a comparison with constant folding.
@@ -687,6 +811,18 @@ func (c *Ctx) QueryOpt(hyps []Term, goal Term, negate bool, mode int) string {
 	}
 	var b strings.Builder
 	b.WriteString("(set-logic ALL)\n")
+	{
+		var all strings.Builder
+		for _, a := range asserts {
+			all.WriteString(a)
+		}
+		for _, d := range c.defs {
+			if used[d.name] {
+				all.WriteString(d.body)
+			}
+		}
+		b.WriteString(arithDefs(all.String()))
+	}
 	var sorts []string
 	for s := range c.sorts {
 		sorts = append(sorts, s)
